@@ -8319,6 +8319,8 @@ S_<TN_, TA_, TH_>::wrapSelect(Control& control) noexcept {
 	HFSM2_LOG_STATE_METHOD(&Head::select,
 						   Method::SELECT);
 
+	ScopedOrigin origin{control, STATE_ID};
+
 	return Head::select(static_cast<const Control&>(control));
 }
 
@@ -8331,6 +8333,8 @@ S_<TN_, TA_, TH_>::wrapRank(Control& control) noexcept {
 	HFSM2_LOG_STATE_METHOD(&Head::rank,
 						   Method::RANK);
 
+	ScopedOrigin origin{control, STATE_ID};
+
 	return Head::rank(static_cast<const Control&>(control));
 }
 
@@ -8340,6 +8344,8 @@ typename S_<TN_, TA_, TH_>::Utility
 S_<TN_, TA_, TH_>::wrapUtility(Control& control) noexcept {
 	HFSM2_LOG_STATE_METHOD(&Head::utility,
 						   Method::UTILITY);
+
+	ScopedOrigin origin{control, STATE_ID};
 
 	return Head::utility(static_cast<const Control&>(control));
 }
